@@ -176,8 +176,8 @@ def genOp (maxObjs : Nat) : G Unit := do
         | _ => emit s!"reparent {oldW} - {o.1}"
   else if k < 83 then
     if let some o ← pickObj then
-      match s.get o.2 with
-      | none => pure ()
+      match (if (← get).d.autofree == some o.2 then none else s.get o.2) with
+      | none => pure ()   -- (the autofree context is not reallocated: the library keeps its address)
       | some ob =>
         let par ← (do
           if ← chance 1 5 then
@@ -197,7 +197,9 @@ def genOp (maxObjs : Nat) : G Unit := do
           else pickSize)
         emit s!"realloc {par} {o.1} {sz}{← failW}"
   else if k < 93 then
-    if let some o ← pickObj then emit s!"dtor {o.1} {← pick dtorWords}"
+    -- (not on the autofree context: its destructor is the library's, which resets the static pointer)
+    if let some o ← pickObj then
+      if (← get).d.autofree != some o.2 then emit s!"dtor {o.1} {← pick dtorWords}"
   else if k < 95 then
     -- the autofree context: ask for it (fresh after it was freed), sometimes leave the process
     let g ← get
